@@ -248,6 +248,28 @@ func c16KeywordCases() []c16Case {
 
 // long tokens: the same long literal (identifier, number, string, raw string, line and block comment, illegal run) twice in
 // one input and again in another input; equal tokens must be one shared object whatever their length
+// every byte value (not only the significant alphabet) where the lexer classifies bytes: at the end of and inside a line
+// comment, after a block comment, inside strings, between identifiers and numbers; and every kind of truncated escape at
+// the end of an unterminated string
+func c16EveryByteCases() []c16Case {
+	var res []c16Case
+	add := func(s string) { res = append(res, c16Case{s, false}, c16Case{s, true}) }
+	for b := 0; b < 256; b++ {
+		c := string([]byte{byte(b)})
+		for _, t := range []string{"//x" + c, "//x" + c + "\n1", "1 //" + c + c + " ", "//" + c + "x" + c + "\n", "/*x*/" + c + "1", "/*" + c + "*/", `"` + c + `"`, "`" + c + "`", "a" + c + "a", "1" + c + "1", c, c + c, " " + c + "\n"} {
+			add(t)
+		}
+	}
+	for _, tail := range []string{`\`, `\x`, `\x4`, `\u`, `\u2`, `\u26`, `\u266`, `\U`, `\U0001F`, `\U0001F60`, `\0`, `\12`, `\"`, `\n\`, `\x"1`, `\x41\`} {
+		for _, pre := range []string{`"`, `"ab`, `x = "a`, "`", "`ab"} {
+			add(pre + tail)
+			add(pre + tail + "\n")
+			add(pre + tail + `" 1`)
+		}
+	}
+	return res
+}
+
 func c16LongTokenCases() []c16Case {
 	var res []c16Case
 	add := func(s string) { res = append(res, c16Case{s, false}, c16Case{s, true}) }
@@ -790,10 +812,11 @@ func checkC16(c *Ctx) {
 	exh := c16Exhaustive(L)
 	kws := c16KeywordCases()
 	rnd := c16Random(c, c.Pick(5000, 100000))
-	cases := make([]c16Case, 0, len(exh)+len(kws)+len(rnd)+800)
+	cases := make([]c16Case, 0, len(exh)+len(kws)+len(rnd)+8000)
 	cases = append(cases, exh...)
 	cases = append(cases, kws...)
 	cases = append(cases, c16LongTokenCases()...)
+	cases = append(cases, c16EveryByteCases()...)
 	cases = append(cases, rnd...)
 	report := func(idxs []int, sig, what string) {
 		var l []any
